@@ -240,6 +240,10 @@ impl MemcacheBinaryCodec {
             return Err(Error::new(ErrorKind::Other, "Header body length too large"));
         }
 
+        // a request owns exactly the body_length bytes its header announces
+        let mut body = src.split_to(self.header.body_length as usize);
+        let src = &mut body;
+
         let result = match FromPrimitive::from_u8(self.header.opcode) {
             Some(binary::Command::Get)
             | Some(binary::Command::GetQuiet)
@@ -309,7 +313,7 @@ impl MemcacheBinaryCodec {
     }
 
     fn parse_get_request(&self, src: &mut BytesMut) -> Result<Option<BinaryRequest>, io::Error> {
-        if !self.request_valid(src, true) {
+        if !self.request_valid(src, true) || !self.layout_valid(&[0], false) {
             return Err(Error::new(ErrorKind::InvalidData, "Incorrect get request"));
         }
 
@@ -342,7 +346,7 @@ impl MemcacheBinaryCodec {
     }
 
     fn parse_delete_request(&self, src: &mut BytesMut) -> Result<Option<BinaryRequest>, io::Error> {
-        if !self.request_valid(src, true) {
+        if !self.request_valid(src, true) || !self.layout_valid(&[0], false) {
             return Err(Error::new(ErrorKind::InvalidData, "Incorrect get request"));
         }
 
@@ -366,7 +370,12 @@ impl MemcacheBinaryCodec {
         &self,
         src: &mut BytesMut,
     ) -> Result<Option<BinaryRequest>, io::Error> {
-        if !self.request_valid(src, false) {
+        // only stat may carry a key
+        let key_allowed = self.header.opcode == binary::Command::Stat as u8;
+        if !self.request_valid(src, false)
+            || !self.layout_valid(&[0], false)
+            || (self.header.key_length != 0 && !key_allowed)
+        {
             return Err(Error::new(
                 ErrorKind::InvalidData,
                 "Incorrect header only request",
@@ -392,7 +401,10 @@ impl MemcacheBinaryCodec {
     }
 
     fn parse_flush_request(&self, src: &mut BytesMut) -> Result<Option<BinaryRequest>, io::Error> {
-        if !self.request_valid(src, false) {
+        if !self.request_valid(src, false)
+            || !self.layout_valid(&[0, 4], false)
+            || self.header.key_length != 0
+        {
             return Err(Error::new(
                 ErrorKind::InvalidData,
                 "Incorrect Flush request",
@@ -419,7 +431,7 @@ impl MemcacheBinaryCodec {
         &self,
         src: &mut BytesMut,
     ) -> Result<Option<BinaryRequest>, io::Error> {
-        if !self.request_valid(src, true) {
+        if !self.request_valid(src, true) || !self.layout_valid(&[0], true) {
             return Err(Error::new(
                 ErrorKind::InvalidData,
                 "Incorrect append/prepend request",
@@ -447,7 +459,7 @@ impl MemcacheBinaryCodec {
         &self,
         src: &mut BytesMut,
     ) -> Result<Option<BinaryRequest>, io::Error> {
-        if !self.request_valid(src, true) {
+        if !self.request_valid(src, true) || !self.layout_valid(&[20], false) {
             return Err(Error::new(
                 ErrorKind::InvalidData,
                 "Incorrect inc/dec request",
@@ -506,7 +518,7 @@ impl MemcacheBinaryCodec {
     }
 
     fn parse_set_request(&self, src: &mut BytesMut) -> Result<Option<BinaryRequest>, io::Error> {
-        if !self.request_valid(src, true) {
+        if !self.request_valid(src, true) || !self.layout_valid(&[8], true) {
             return Err(Error::new(ErrorKind::InvalidData, "Incorrect set request"));
         }
 
@@ -557,6 +569,16 @@ impl MemcacheBinaryCodec {
                 Err(Error::new(ErrorKind::InvalidData, "Incorrect op code"))
             }
         }
+    }
+
+    /// Checks the extras length against the command's fixed layout and that commands
+    /// without a value carry none (body = extras + key).
+    fn layout_valid(&self, extras_allowed: &[u8], value_allowed: bool) -> bool {
+        if !extras_allowed.contains(&self.header.extras_length) {
+            return false;
+        }
+        let fixed = self.header.key_length as u32 + self.header.extras_length as u32;
+        value_allowed || self.header.body_length == fixed
     }
 
     fn request_valid(&self, _src: &mut BytesMut, key_required: bool) -> bool {
